@@ -156,6 +156,9 @@ def generate(rng, tier):
         out.append(case(rng.choice(["value", "lex"]), (False, False, False), s, "valid:string"))
         ms, label = G.mutate_text(s, rng)
         out.append(case(rng.choice(["value", "lex"]), (False, False, False), ms, "mutant:string-" + label))
+    for _ in range(24 if quick else 600):
+        out.append(case(rng.choice(["value", "lex"]), (False, False, False), G.string_with_break(rng),
+                        "mutant:string-linebreak"))
     # enumerations
     # number automaton: all strings over the 11-symbol alphabet up to length 3 (quick: sample) / 5,
     # and over the 6-symbol alphabet "-01.e+" of length 6 (thorough)
@@ -175,9 +178,13 @@ def generate(rng, tier):
     seqs = list(G.token_sequences(2 if quick else 4))
     for s in seqs:
         out.append(case("doc", (False, False, False), s, "enum:tokens"))
-    if not quick:
-        for s in rng.sample(list(G.token_sequences(5)), 20000):
-            out.append(case("doc", (False, False, False), s, "enum:tokens5"))
+    seq5 = [" ".join(rng.choice(G.TOKEN_ALPHABET) for _ in range(rng.randint(3, 6)))
+            for _ in range(300 if quick else 20000)]
+    # bias towards well-bracketed shapes
+    seq5 += ["{ a " + " ".join(rng.choice(G.TOKEN_ALPHABET) for _ in range(rng.randint(1, 4))) + " }"
+             for _ in range(300 if quick else 20000)]
+    for s in seq5:
+        out.append(case("doc", (False, False, False), s, "enum:tokens-sample"))
     return out
 
 
